@@ -231,7 +231,7 @@ def regen_modules(root, pid):
 
 # corollaries at the real instance cxA (hypotheses cx.WF / DefaultsOk / positive byte lengths discharged)
 REGEN_CXA = {"Chars": ["editorChars_cxA"], "Lines": ["editorLinesSel_cxA"], "Edit": ["editorInsert_cxA", "editorDelete_cxA"],
-             "WrapOpts": ["editorWrapOpts_cxA", "phFresh_cxA"], "IndentOpts": ["editorIndentOpts_cxA"],
+             "WrapOpts": ["editorWrapOpts_cxA"], "IndentOpts": ["editorIndentOpts_cxA"],
              "Paras": ["editorApplyGParagraphsOpts_cxA", "defaultsOk_cxA", "literal_map_cxA"],
              "InsertTable": ["editorInsertTableOpts_cxA"],
              # hypotheses CellAlloc / GemOK discharged from the pool invariant H.Inv and for every history
@@ -250,6 +250,13 @@ for _pid, _groups in (("C13", ["AlignOpts"]), ("C12", ["JustifyOpts"]), ("C07", 
     REGEN_OF.setdefault(_pid, []).extend(_groups)
 REGEN_CXA.update({"AlignOpts": ["editorAlignOpts_cxA", "editorAlign_cxA"],
                   "JustifyOpts": ["editorJustifyOpts_cxA", "editorJustify_cxA"]})
+
+# T4 (repair of D18): affixPlaceholder, the stand-in WrapOpts / JustifyOpts pad paragraphs with; the hypothesis
+# PhFresh of its theorem (and of the two callers') is discharged at cxA by pigeonhole (phFresh_cxA)
+REGEN["AffixPlaceholder"] = ["affixPlaceholder"]
+for _pid in ("C06", "C07", "C11", "C12", "C17"):
+    REGEN_OF.setdefault(_pid, []).append("AffixPlaceholder")
+REGEN_CXA["AffixPlaceholder"] = ["affixPlaceholder_cxA", "phFresh_cxA"]
 
 
 def regen_theorems(pid):
